@@ -75,12 +75,15 @@ func TestC07(t *testing.T) {
 	s3short.name = "S4-canary-short-duration"
 	s3short.eds = []w.EDSOpt{w.WithCanary("1", 3*time.Second, 0, "auto"), w.WithAuto(true, 1, true, 2)}
 	s3m := corpusS3(nodes, "1", "manual", b, dev)
+	// the user's `canary fail` lands in the middle of a sync of the canary replica set: the mark must survive it
+	s3mid := corpusS3(nodes, "1", "auto", 1, &w.Alpha{MidCmds: []string{"canary-fail"}})
+	s3mid.name = "S4-canary-fail-overtakes-a-sync"
 	type fstate struct {
 		sc *w.Scenario
 		s  *w.State
 	}
 	var failedStates []fstate
-	runWorld(t, run, []scOpt{s3, s3short, s3m}, []func(*w.MonCtx){w.MonC07, w.MonC05}, 0, func(sc *w.Scenario, s *w.State, d int) {
+	runWorld(t, run, []scOpt{s3, s3short, s3m, s3mid}, []func(*w.MonCtx){w.MonC07, w.MonC05}, 0, func(sc *w.Scenario, s *w.State, d int) {
 		if rs, _ := failedCanary(s); rs != nil {
 			if len(failedStates) < 150000 {
 				failedStates = append(failedStates, fstate{sc, s})
@@ -164,7 +167,7 @@ func TestC07(t *testing.T) {
 			}
 		}
 	})
-	requireAntecedents(run, "C07/failed-rs-deleted")
+	requireAntecedents(run, "C07/failed-rs-deleted", "C07/fail-overtook-sync")
 	if run.Counter("skipped_deadline") > 0 {
 		run.NotExhaustive(fmt.Sprintf("%d failed states skipped at the deadline", run.Counter("skipped_deadline")))
 	}
